@@ -21,6 +21,7 @@
 
 use crate::chainpool::*;
 use crate::engine::*;
+use crate::props::proto::{Negotiation, ProtoWorld, To};
 use crate::world::*;
 use lightning_signer::bitcoin::secp256k1::{PublicKey, SecretKey};
 use lightning_signer::bitcoin::{Network, OutPoint, Txid};
@@ -85,6 +86,12 @@ pub enum Op {
 #[derive(Clone, Debug, Serialize, Deserialize)]
 pub struct Case {
     pub ops: Vec<Op>,
+    /// wire delivery: the signer is built by `HandlerBuilder` (as vlsd builds it), blocks are
+    /// connected / disconnected and heartbeats requested with protocol messages to its root
+    /// handler (`chainpool::wire_add` / `wire_remove`, `GetHeartbeat`; the handler persists the
+    /// tracker itself), a restart rebuilds the handler from a copy of the store
+    #[serde(default)]
+    pub wire: bool,
 }
 
 const AMTS: [u64; 3] = [10_000, 25_000, 400_000];
@@ -248,6 +255,12 @@ struct Run<'a> {
     st: &'a mut CaseStats,
     ctx: &'a Ctx,
     debug: bool,
+    /// wire delivery: the handlers serving `w.node`
+    pw: Option<ProtoWorld>,
+    wlog: WireLog,
+    /// wire delivery: blocks the best chain left, with the headers below them (the follower's
+    /// chain source still serves them when the signer comes back from a restart on one of them)
+    stale: Vec<(SimBlock, lightning_signer::chain::tracker::Headers)>,
 }
 
 fn chan_key(w: &World, ci: usize) -> String {
@@ -376,6 +389,60 @@ impl<'a> Run<'a> {
         Ok(())
     }
 
+    fn flush_wire_classes(&mut self) {
+        if self.pw.is_none() {
+            return;
+        }
+        for c in self.wlog.classes() {
+            self.st.class(c);
+        }
+        self.wlog = WireLog::default();
+    }
+
+    /// Wire delivery, after a restart: what the chain follower does at its next update.  It asks
+    /// `TipInfo`; a tip that its best chain has left is removed (again), a tip below its best chain
+    /// is extended, until the signer is at the follower's tip.  On a signer that persisted every
+    /// block request before answering it there is nothing to do.
+    fn resync_after_restart(&mut self) -> bool {
+        let mut redone = false;
+        for _ in 0..(2 * BLOCK_CAP) {
+            let pw = self.pw.as_ref().expect("wire");
+            let (h, hash) = match wire_tip(&pw.root, &mut self.wlog) {
+                Ok(t) => t,
+                Err(e) => panic!("harness: TipInfo after a restart failed: {}", e),
+            };
+            if h == self.sim.height() && hash == self.sim.tip_header().block_hash() {
+                self.flush_wire_classes();
+                self.st.class(if redone { "wire:resync_after_restart:repaired" } else { "wire:resync_after_restart:in_sync" });
+                return true;
+            }
+            redone = true;
+            let on_best = h <= self.sim.height() && hash == if h == 0 { self.sim.genesis.block_hash() } else { self.sim.blocks[h as usize - 1].block.block_hash() };
+            let d = if on_best {
+                self.st.class("wire:resync_after_restart:block_added_again");
+                let sb = self.sim.blocks[h as usize].clone();
+                wire_add(&pw.root, &sb.block, &sb.prev_filter_header, false, 0, &mut self.wlog)
+            } else if let Some(k) = self.stale.iter().rposition(|(sb, _)| sb.block.block_hash() == hash) {
+                self.st.class("wire:resync_after_restart:block_removed_again");
+                let (sb, prev) = (self.stale[k].0.clone(), self.stale[k].1.clone());
+                wire_remove(&pw.root, &sb.block, prev, false, 0, &mut self.wlog)
+            } else {
+                panic!("harness: after a restart the signer's tip {} at height {} is no block the harness ever delivered", hash, h);
+            };
+            self.flush_wire_classes();
+            match d {
+                Deliver::Ok => {}
+                Deliver::Refused(e) => panic!("harness: resynchronisation after a restart refused: {}", e),
+                Deliver::Panic(_) => {
+                    self.st.class("abort:resync");
+                    self.stopped = true;
+                    return false;
+                }
+            }
+        }
+        panic!("harness: resynchronisation after a restart does not converge");
+    }
+
     fn persist_tracker(&self) {
         let node = self.w.node.clone();
         let tracker = node.get_tracker();
@@ -393,9 +460,17 @@ impl<'a> Run<'a> {
         let sb = self.sim.blocks.last().unwrap().clone();
         self.blocks_mined += 1;
         let node = self.w.node.clone();
-        match self.w.txn(|| tracker_add(&node, &sb.block, false, 0)).0 {
+        let d = match self.pw.as_ref() {
+            // the AddBlock handler persists the tracker itself
+            Some(pw) => wire_add(&pw.root, &sb.block, &sb.prev_filter_header, false, 0, &mut self.wlog),
+            None => self.w.txn(|| tracker_add(&node, &sb.block, false, 0)).0,
+        };
+        self.flush_wire_classes();
+        match d {
             Deliver::Ok => {
-                self.w.txn(|| self.persist_tracker());
+                if self.pw.is_none() {
+                    self.w.txn(|| self.persist_tracker());
+                }
                 true
             }
             Deliver::Refused(e) => panic!("tracker refused a valid block at height {}: {}", self.sim.height(), e),
@@ -412,11 +487,27 @@ impl<'a> Run<'a> {
         let sb = self.sim.blocks.last().unwrap().clone();
         let node = self.w.node.clone();
         let prev = self.sim.prev_headers();
-        match self.w.txn(|| tracker_remove(&node, &sb.block, prev, false, 0)).0 {
+        let d = match self.pw.as_ref() {
+            Some(pw) => wire_remove(&pw.root, &sb.block, prev.clone(), false, 0, &mut self.wlog),
+            None => self.w.txn(|| tracker_remove(&node, &sb.block, prev.clone(), false, 0)).0,
+        };
+        self.flush_wire_classes();
+        match d {
             Deliver::Ok => {
-                self.w.txn(|| self.persist_tracker());
+                if self.pw.is_none() {
+                    self.w.txn(|| self.persist_tracker());
+                } else {
+                    self.stale.push((sb.clone(), prev));
+                }
                 self.sim.pop();
                 true
+            }
+            // the RemoveBlock handler expect()s the tracker's result: a removal beyond the
+            // remembered headers ends the signer (C14 covers reorgs within the window only)
+            Deliver::Panic(m) if self.pw.is_some() && m.contains("ReorgTooDeep") => {
+                self.st.class("wire:reorg_too_deep_ends_the_signer");
+                self.stopped = true;
+                false
             }
             Deliver::Refused(e) => {
                 if e.contains("ReorgTooDeep") {
@@ -647,7 +738,22 @@ impl<'a> Run<'a> {
             desc.push(d);
         }
         let node = self.w.node.clone();
-        let r = self.w.txn(|| call(|| Ok(node.get_heartbeat()))).0;
+        let r = match self.pw.as_mut() {
+            Some(pw) => {
+                let r = pw.request(To::Root, vls_protocol::msgs::Message::GetHeartbeat(vls_protocol::msgs::GetHeartbeat {}));
+                self.st.class(format!("wire:GetHeartbeat:{}", r.tag()));
+                match r {
+                    Out::Ok(_) => Out::Ok(()),
+                    Out::Err(e) => Out::Err(e),
+                    Out::Panic(p) => Out::Panic(p),
+                }
+            }
+            None => match self.w.txn(|| call(|| Ok(node.get_heartbeat()))).0 {
+                Out::Ok(_) => Out::Ok(()),
+                Out::Err(e) => Out::Err(e),
+                Out::Panic(p) => Out::Panic(p),
+            },
+        };
         self.st.class(format!("heartbeat:{}", r.tag()));
         self.push_shape(format!("H:{}:{}", desc.join(","), r.tag()));
         self.note(i, json!({"heartbeat": desc, "result": r.tag()}));
@@ -768,13 +874,26 @@ impl<'a> Run<'a> {
                 }
             }
             Op::Restart => {
-                let r = self.w.restart();
+                let r = match self.pw.as_mut() {
+                    // a second signer built by HandlerBuilder from a copy of the store
+                    Some(pw) => {
+                        let r = pw.restart();
+                        if r.is_ok() {
+                            self.w.rebind_proto(pw);
+                        }
+                        r
+                    }
+                    None => self.w.restart(),
+                };
                 self.st.class(format!("restart:{}", r.tag()));
                 self.push_shape(format!("R:{}", r.tag()));
                 self.note(i, json!({"restart": r.tag(), "msg": r.err_msg()}));
                 match r {
                     Out::Ok(()) => {
                         self.restarts += 1;
+                        if self.pw.is_some() && !self.resync_after_restart() {
+                            return Ok(());
+                        }
                         // the tracker must have come back at the model's tip (the harness persisted
                         // it after every block like the protocol handler)
                         let h = self.w.node.get_tracker().height();
@@ -859,10 +978,10 @@ impl Prop for C15 {
             let mut ops = vec![Op::Open(spec(3, vec![])), forget(3)];
             ops.extend(close);
             ops.extend([Op::Bury { k: 0, rel: -1 }, Op::Heartbeat, Op::Restart, Op::Heartbeat, Op::Empty { n: 1 }, Op::Heartbeat, Op::NewStub { dbid: 3, peer: 2 }, Op::Restart, Op::NewStub { dbid: 2, peer: 1 }, Op::NewStub { dbid: 4, peer: 1 }]);
-            v.push(Case { ops });
+            v.push(Case { ops, wire: false });
         }
         // no forget request: survives any depth
-        v.push(Case { ops: vec![Op::Open(spec(2, vec![])), blk(vec![TxSel::Funding { c: 0 }]), blk(vec![TxSel::Mutual { c: 0, salt: 0 }]), Op::Bury { k: 0, rel: 2 }, Op::Heartbeat, Op::Restart, Op::Heartbeat] });
+        v.push(Case { ops: vec![Op::Open(spec(2, vec![])), blk(vec![TxSel::Funding { c: 0 }]), blk(vec![TxSel::Mutual { c: 0, salt: 0 }]), Op::Bury { k: 0, rel: 2 }, Op::Heartbeat, Op::Restart, Op::Heartbeat], wire: false });
         // own commitment with an HTLC: main output, HTLC, second level swept one by one; the last sweep is reorged out
         v.push(Case {
             ops: vec![
@@ -883,15 +1002,24 @@ impl Prop for C15 {
                 Op::Restart,
                 Op::Heartbeat,
             ],
+            wire: false,
         });
         // a stub is forgotten: its id and lower ones stay refused across a restart
-        v.push(Case { ops: vec![Op::NewStub { dbid: 3, peer: 1 }, forget(3), Op::NewStub { dbid: 3, peer: 1 }, Op::NewStub { dbid: 2, peer: 2 }, Op::Restart, Op::NewStub { dbid: 3, peer: 2 }, Op::NewStub { dbid: 1, peer: 1 }, Op::NewStub { dbid: 4, peer: 1 }] });
+        v.push(Case { ops: vec![Op::NewStub { dbid: 3, peer: 1 }, forget(3), Op::NewStub { dbid: 3, peer: 1 }, Op::NewStub { dbid: 2, peer: 2 }, Op::Restart, Op::NewStub { dbid: 3, peer: 2 }, Op::NewStub { dbid: 1, peer: 1 }, Op::NewStub { dbid: 4, peer: 1 }], wire: false });
+        // the same histories with wire delivery
+        let wired: Vec<Case> = v.iter().map(|c| Case { ops: c.ops.clone(), wire: true }).collect();
+        v.extend(wired);
         v
     }
 
     fn run(&self, case: &Case, st: &mut CaseStats, ctx: &Ctx) -> Result<(), Violation> {
         let t0 = std::time::Instant::now();
-        let mut w = World::new(regtest_cfg());
+        let pw = if case.wire { Some(ProtoWorld::new(regtest_cfg(), 6, Negotiation::SignerCap)) } else { None };
+        let w = match pw.as_ref() {
+            Some(pw) => World::from_proto(pw),
+            None => World::new(regtest_cfg()),
+        };
+        st.class(if case.wire { "wire_delivery" } else { "api_delivery" });
         let payee = PublicKey::from_secret_key(&w.secp, &SecretKey::from_slice(&[5u8; 32]).unwrap());
         for h in 0u8..2 {
             w.node.add_keysend(payee, phash(h), 2_000_000_000).expect("keysend");
@@ -914,6 +1042,9 @@ impl Prop for C15 {
             st: &mut *st,
             ctx,
             debug: std::env::var("VERIF_C15_DEBUG").is_ok(),
+            pw,
+            wlog: WireLog::default(),
+            stale: vec![],
         };
         let mut res = Ok(());
         for (i, op) in case.ops.iter().enumerate() {
@@ -932,7 +1063,12 @@ impl Prop for C15 {
         st.sample = Some(json!({"ops": case.ops.len(), "trace": trace}));
         if nontrivial {
             st.class("nontrivial");
-            st.nontrivial_shape(shape);
+            if case.wire {
+                st.class("wire:nontrivial");
+                st.nontrivial_shape(("wire", shape));
+            } else {
+                st.nontrivial_shape(shape);
+            }
         }
         if std::env::var("VERIF_C15_TIMING").is_ok() {
             eprintln!("TIMING {} ms blocks={} ops={}", t0.elapsed().as_millis(), blocks, case.ops.len());
@@ -1211,6 +1347,6 @@ fn strategy(tier: Tier) -> BoxedStrategy<Case> {
         25 => free_history(max_ops),
         15 => id_history(),
     ]
-    .prop_map(|ops| Case { ops })
+    .prop_flat_map(|ops| prop::bool::weighted(0.3).prop_map(move |wire| Case { ops: ops.clone(), wire }))
     .boxed()
 }
